@@ -10,8 +10,10 @@
 (*          after field.                                                                                     *)
 EXTENDS Integers, Sequences, TLC, Json
 
-Offs == {0, 8, 16, 96, 128, 160, 248}
-Lens == {1, 8, 16, 96, 128, 160, 248, 256}
+CONSTANT Full     \* the thorough tier: more offsets and widths, also ones that are not whole bytes
+
+Offs == {0, 8, 16, 96, 128, 160, 248} \cup (IF Full THEN {1, 7, 24, 32, 64, 200, 255} ELSE {})
+Lens == {1, 8, 16, 96, 128, 160, 248, 256} \cup (IF Full THEN {2, 7, 9, 24, 32, 64, 255} ELSE {})
 ShrForms == {"shr", "divlit", "divexp", "divshl"}
 Sides == {"L", "R"}
 
